@@ -6,7 +6,7 @@ usage: tools/reeval.py [--jobs 3] [--seed 20260927] [ids ...]      (default: eve
 For each seeded/<id>: copy /repo's working tree (without .git) to /tmp/reeval_<id>, apply patch.diff there, run the
 check(s) named in meta.json's detected_by (falling back to the property's own check) with VERIF_REPO pointing at the
 copy (no evidence written, replays into the scratch directory), remove the copy.  /repo itself is never touched.
-Prints one line per change and writes seeded/reeval.json.  Exit 1 if any change is no longer caught.
+Prints one line per change and writes seeded/reeval.json (a run with explicit ids updates the stored table).  Exit 1 if any change is no longer caught.
 """
 import argparse
 import concurrent.futures as cf
@@ -63,8 +63,20 @@ def main():
             results.append(res)
             print(res["id"], "CAUGHT" if res["caught"] else "MISSED", json.dumps(res["checks"]), res.get("error", ""), flush=True)
     missed = [r["id"] for r in results if not r["caught"]]
-    with open(os.path.join(VERIF, "seeded", "reeval.json"), "w", encoding="utf-8") as fh:
-        json.dump({"seed": args.seed, "n": len(results), "missed": missed, "results": results}, fh, indent=1)
+    path = os.path.join(VERIF, "seeded", "reeval.json")
+    merged = {}
+    if args.ids and os.path.exists(path):
+        # a partial run updates the stored table instead of replacing it
+        try:
+            with open(path, encoding="utf-8") as fh:
+                merged = {r["id"]: r for r in json.load(fh).get("results", [])}
+        except (ValueError, KeyError, TypeError):
+            merged = {}
+    for res in results:
+        merged[res["id"]] = res
+    rows = [merged[k] for k in sorted(merged)]
+    with open(path, "w", encoding="utf-8") as fh:
+        json.dump({"seed": args.seed, "n": len(rows), "missed": [r["id"] for r in rows if not r["caught"]], "results": rows}, fh, indent=1)
     print(f"reeval: {len(results) - len(missed)}/{len(results)} caught; missed: {missed}")
     return 1 if missed else 0
 
